@@ -65,10 +65,68 @@ def check(run: Run) -> None:
 
 
 # ---------------------------------------------------------------- R08.1
+def _chain_shape_lazy(run: Run, cm, fi: FuncInfo, cfg: CFG, pvalue: str, ppath: str) -> bool:
+    """the same chain shape written without a statement loop:
+        results = (c.evaluate(value, path) for c in self.constraints)            # every member, on the chain's own value, no filter
+        return next((r for r in results if not r.valid), ValidationResult(valid=True))   # first failing result, else accept
+    Returns False when the function does not have this form (the caller then reports the missing loop)."""
+    def member_results(e: ast.AST) -> bool:
+        if isinstance(e, ast.Name):
+            ds = [a.value for a in walk_no_nested(fi.node) if isinstance(a, ast.Assign) and len(a.targets) == 1 and is_name(a.targets[0], e.id)]
+            return len(ds) == 1 and member_results(ds[0])
+        if not (isinstance(e, (ast.GeneratorExp, ast.ListComp)) and len(e.generators) == 1):
+            return False
+        g = e.generators[0]
+        if g.ifs or ast.unparse(g.iter) != "self.constraints" or not isinstance(g.target, ast.Name):
+            return False
+        c = e.elt
+        return isinstance(c, ast.Call) and isinstance(c.func, ast.Attribute) and c.func.attr == "evaluate" and is_name(c.func.value, g.target.id) and [ast.unparse(a) for a in c.args] + [ast.unparse(k.value) for k in c.keywords] == [pvalue, ppath]
+
+    finals = []
+    for rn in [n for n in cfg.nodes if isinstance(n.ast, ast.Return)]:
+        v = rn.ast.value  # type: ignore[union-attr]
+        if isinstance(v, ast.Call) and is_name(v.func, "next") and len(v.args) == 2 and isinstance(v.args[0], ast.GeneratorExp) and len(v.args[0].generators) == 1:
+            ge = v.args[0]
+            g = ge.generators[0]
+            if isinstance(g.target, ast.Name) and is_name(ge.elt, g.target.id) and len(g.ifs) == 1 and ast.unparse(g.ifs[0]) == f"not {g.target.id}.valid" and member_results(g.iter):
+                finals.append((rn, v))
+    if len(finals) != 1:
+        return False
+    rn, call = finals[0]
+    run.instance("R08.1", cm.loc(rn.ast), "ConstraintChain.evaluate: every member is evaluated lazily on the chain's own value (generator over self.constraints, no filter)", ok=not _rebound(fi, pvalue))
+    if _rebound(fi, pvalue):
+        run.violation("R08.1", cm, fi.qualname, rn.ast, "the members are evaluated on a value that the function rebinds: they could see something other than the chain's own value")
+    conds = branch_conditions(cfg, rn.id)
+    cvars = {n.targets[0].id for n in walk_no_nested(fi.node) if isinstance(n, ast.Assign) and isinstance(n.value, ast.Call) and ast.unparse(n.value.func) == "self.detect_conflicts" and isinstance(n.targets[0], ast.Name)}
+    ok = any(isinstance(t, ast.Name) and t.id in cvars and val is False for t, val in conds)
+    run.instance("R08.1", cm.loc(rn.ast), "the members are evaluated only when detect_conflicts() returned nothing", ok=ok)
+    if not ok:
+        run.violation("R08.1", cm, fi.qualname, "conflict check before members", "members are evaluated without detect_conflicts() having been called and found empty: a conflicting chain (REQ∧OPT, CONST≠CONST, CONST∉ENUM) could accept a value")
+    for n in cfg.nodes:
+        if n.kind == "test" and isinstance(n.ast, ast.Name) and n.ast.id in cvars:
+            rets = [cfg.nodes[s] for s in _reach_returns(cfg, [s for s, lab in cfg.succ[n.id] if lab == "t"], stop={rn.id})]
+            okc = bool(rets) and all(_result_valid(r.ast.value) is False for r in rets)  # type: ignore[union-attr]
+            run.instance("R08.1", cm.loc(n.ast), "a non-empty conflict list returns an invalid result", ok=okc)
+            if not okc:
+                run.violation("R08.1", cm, fi.qualname, n.ast, "a declared conflict does not lead to an invalid result")
+    run.instance("R08.1", cm.loc(rn.ast), "the first failing member's result is returned as it is (next over `not r.valid`)", ok=True)
+    okd = _result_valid(call.args[1]) is True
+    run.instance("R08.1", cm.loc(rn.ast), "the accepting result is only the default of next(): reached when no member failed", ok=okd)
+    if not okd:
+        run.violation("R08.1", cm, fi.qualname, rn.ast, "when no member fails the chain does not return an accepting result")
+    # no other accepting return
+    for other in [n for n in cfg.nodes if isinstance(n.ast, ast.Return) and n is not rn]:
+        if _result_valid(other.ast.value) is not False:  # type: ignore[union-attr]
+            run.violation("R08.1", cm, fi.qualname, other.ast, "ConstraintChain.evaluate can accept before every member has been evaluated (early `valid=True` return)")  # type: ignore[arg-type]
+    return True
+
+
 def _chain_shape(run: Run, cm, fi: FuncInfo) -> None:
     cfg = CFG(fi.node)
     pvalue, ppath = [a.arg for a in fi.node.args.args][1:3]  # type: ignore[attr-defined]
     loops = [n for n in cfg.nodes if n.kind == "iter" and ast.unparse(n.ast) == "self.constraints"]  # type: ignore[arg-type]
+    if not loops and _chain_shape_lazy(run, cm, fi, cfg, pvalue, ppath):
+        return
     if len(loops) != 1:
         run.instance("R08.1", cm.loc(fi.node), "ConstraintChain.evaluate: exactly one loop over self.constraints", ok=False)
         run.violation("R08.1", cm, fi.qualname, "for constraint in self.constraints", f"ConstraintChain.evaluate has {len(loops)} loops over self.constraints (expected one loop that evaluates every member)")
